@@ -173,6 +173,7 @@ type output struct {
 	TotalSched    int              `json:"total_schedules"`
 	SnapshotCalls int              `json:"snapshot_checks"`
 	SnapshotBad   []string         `json:"snapshot_violations"`
+	LazyInit      []string         `json:"one_time_initialisations"`
 	ReplayChecked int              `json:"replays_checked_deterministic"`
 	Errors        []string         `json:"errors"`
 	Wall          float64          `json:"wall_s"`
@@ -202,20 +203,30 @@ func main() {
 	t0 := time.Now()
 	m := menu()
 	var out output
-	// purity: package-level state is unchanged by every operation, and every operation is repeatable
+	// purity: package-level state is unchanged by every operation, and every operation is repeatable.
+	// A one-time initialisation (a table built on first use under sync.Once, a cache published once) is not a
+	// modification any caller can observe: the first pass lets package-level state settle and only counts
+	// the operations that changed it; from the second pass on every change is a violation (scratch buffers,
+	// memo entries and counters keep changing, an initialisation does not).
 	snap0 := dec.VerifSnapshot()
 	base := map[string]string{}
 	for _, o := range m {
-		r1 := o.f()
+		base[o.name] = o.f()
+		if s := dec.VerifSnapshot(); s != snap0 {
+			out.LazyInit = append(out.LazyInit, o.name)
+			snap0 = s
+		}
+	}
+	for _, o := range m {
+		r2 := o.f()
 		out.SnapshotCalls++
 		if s := dec.VerifSnapshot(); s != snap0 {
 			out.SnapshotBad = append(out.SnapshotBad, o.name+": package-level state changed")
 			snap0 = s
 		}
-		if r2 := o.f(); r2 != r1 {
+		if r2 != base[o.name] {
 			out.SnapshotBad = append(out.SnapshotBad, o.name+": second call gave a different result")
 		}
-		base[o.name] = r1
 	}
 	// after everything ran once, results must still be what they were (no hidden state carried over)
 	for _, o := range m {
